@@ -202,7 +202,37 @@ func c01(args []string) {
 	fs.Parse(args)
 	defer stdout.Flush()
 	r := newRng(*seed)
+	evapDayWitness()
 	for i := 0; i < *nsynth; i++ {
 		synthWater(r, i)
 	}
+}
+
+// evapDayWitness replays the input of WaterDayBounds.evap_day_witness (two evaporation sub-steps with a freely chosen
+// evaporation profile) on the real kernel: both sub-steps go through the bit-exact comparison, and the observation
+// the Coq lemma evap_day_refuted_lemma states about the model (layer 3 above its dryness limit after sub-step 1,
+// below it after sub-step 2) is reported for the real code.
+func evapDayWitness() {
+	g := hermes.NewGlobalVarsMain()
+	var l hermes.WaterSharedVars
+	g.N, g.OUTN = 3, 3
+	g.AKF.SetByIndex(0)
+	g.SAAT[0] = 100
+	g.GRW = 99
+	g.FLUSS0 = -0.6
+	copy(g.WG[0][:], []float64{0.03, 0.2, 0.0035, 0.0035})
+	copy(g.WG[1][:], []float64{0.03, 0.2, 0.0035, 0.0035})
+	copy(g.TP[:], []float64{0, 0, 0.005})
+	copy(g.W[:], []float64{0.3, 0.3, 0.3})
+	copy(g.WMIN[:], []float64{0.03, 0.03, 0.003})
+	copy(g.PORGES[:], []float64{0.4, 0.4, 0.4})
+	copy(g.WNOR[:], []float64{0.3, 0.3, 0.3})
+	copy(l.NFK[:], []float64{1, 1, 1})
+	copy(l.EV[:], []float64{0.3, 0.253, 0.044, 0})
+	waterCase("witness", &g, &l, 0.5, 1, 120)
+	after1 := g.WG[1][2]
+	waterCase("witness", &g, &l, 0.5, 2, 120)
+	after2 := g.WG[1][2]
+	emit(jobj{"k": "evap-day-witness", "after1": after1, "after2": after2, "limit": g.WMIN[2] / 3,
+		"as_stated": after1 >= g.WMIN[2]/3 && after2 < g.WMIN[2]/3})
 }
